@@ -34,6 +34,10 @@ if mods:
         'LbzVerif.Props.C11.Compress.capacity',
         'LbzVerif.Props.C11.Compress.conservation',
         'LbzVerif.Props.C11.Compress.order',
+        'LbzVerif.Props.C11.Compress.progress',
+        'LbzVerif.Props.C11.Compress.terminates',
+        'LbzVerif.Props.C11.Compress.measure_decreases',
+        'LbzVerif.Props.C11.Compress.no_lost_wakeup',
         'LbzVerif.Props.C11.Expand.order',
         'LbzVerif.Props.C11.Expand.progress',
         'LbzVerif.Props.C11.Expand.unord_q_capacity',
